@@ -42,7 +42,26 @@ pub fn run_case(case: &Value) -> Value {
         obs.as_object_mut().unwrap().insert("doc".into(), doc);
     }
     let text = uncps(&case["text"]);
-    let out = if let Some(dt) = case.get("doctext") {
+    let out = if let Some(rt) = case.get("rt").and_then(|x| x.as_str()) {
+        // a runtime of the caller's own instead of the shared default one: "empty" has no functions at all,
+        // "fresh" has had the built-ins registered
+        let rt = rt.to_string();
+        guarded(|| {
+            let mut runtime = jmespath::Runtime::new();
+            if rt == "fresh" {
+                runtime.register_builtin_functions();
+            }
+            let expr = match runtime.compile(&text) {
+                Ok(e) => e,
+                Err(e) => return json!({"err":err_to_json(&e, &text),"stage":"compile"}),
+            };
+            let data = match tagged_to_var(&obs["doc"]) {
+                Ok(d) => d,
+                Err(e) => return json!({"harness":ascii_cps(&e)}),
+            };
+            outcome(&expr.search(data), &text)
+        })
+    } else if let Some(dt) = case.get("doctext") {
         // the document is given as JSON text (number spellings, escapes, duplicate keys reach the library's own parser)
         let dtext = uncps(dt);
         guarded(|| {
